@@ -1158,7 +1158,16 @@ func (rt *Runtime) RunOp(i int) *OpResult {
 				res.Loaded++
 			}
 		case OpConvert:
-			v, err := argmapper.Convert(Types[o.Type], args...)
+			var tt reflect.Type
+			if o.Type == -1 {
+				tt = structTypeOf(rt.Parties[o.Target].In)
+				if rt.Parties[o.Target].InForm == FormPtrStruct {
+					tt = reflect.PtrTo(tt)
+				}
+			} else {
+				tt = Types[o.Type]
+			}
+			v, err := argmapper.Convert(tt, args...)
 			res.Err = err
 			if v == nil {
 				res.ConvNil = true
